@@ -458,6 +458,19 @@ class C20(Check):
         from pyctr.type.config.save import ConfigSaveReader
         kb = known_blocks()
         pool = ['a', 'Z', '0', ' ', '\u00e9', '\u3000', '\u2500', '\u0100', '\u3042', '\uff21', '\U00010000', '\U0001f600', 'e\u0301', '\u00ff', '\u0001']
+        # ANOTHER fresh save lives in the same process and has the typed setters used on it before this one is made and again after
+        # this one's operations: two saves are two values, whatever one of them is given must not show up in the other
+        other = po = other_img = None
+        if rng.chance(0.5):
+            other = ConfigSaveReader()
+            po = ConfigSaveBlockParser(other)
+            try:
+                po.system_model = 4
+                po.username = 'other'
+                po.user_time_offset = 0x1122334455
+                other_img = other.to_bytes()
+            except Exception:  # noqa
+                other = None
         save = ConfigSaveReader()
         p = ConfigSaveBlockParser(save)
         ops, outs, mon = [], [], []
@@ -535,6 +548,15 @@ class C20(Check):
                 except Exception as e:      # noqa
                     outs.append('load-e:' + exc_name(e))
                     mon.append(f'a save built through set_block / the typed setters serialises to an image its own loader rejects: {exc_name(e)}')
+        if other is not None:
+            try:
+                if other.to_bytes() != other_img:
+                    mon.append('operations on one config save changed ANOTHER save object made earlier in this process')
+                po.system_model = 1
+                po.username = 'x'
+                po.user_time_offset = 7
+            except Exception as e:      # noqa
+                mon.append(f'the other save raised {exc_name(e)}')
         real = 'ok ' + ';'.join(outs) + ' ' + ','.join(f'{bid}:{b.flags}:{bytes(b.data).hex() or "-"}' for bid, b in save.blocks.items())
         return real, drv.ask(sexp(['cfg-ops', ops])), mon
 
